@@ -23,6 +23,7 @@ fn c19(case: &Sexp) -> Sexp {
         15 => sc_guard::run_one_thread(case),
         16 => sc_guard::run_two_threads(case),
         17 => sc_guard::run_read_vs_store(case),
+        18 => sc_guard::run_user_write(case),
         2 => sc_chan::run(case),
         3 => sc_sig::run(case),
         4 => sc_glitch::run(case),
